@@ -216,18 +216,18 @@ func writeEvidence(path string, prop *core.Property, tier string, seed int, all 
 		"distinct_nontrivial": nontrivial,
 		"rule": "one evaluation = one obligation (rule instance applied to one construct of /repo's current source, per build configuration); " +
 			"distinct = distinct rule+construct keys; non-trivial = discharged by a path/dataflow/table argument rather than by a constant or by absence",
-		"samples":          samples,
-		"obligations":      len(all),
-		"discharged":       discharged,
-		"distinct":         distinct,
-		"rules":            ruleDocs,
-		"analysed":         stats,
-		"build_configs":    configs,
-		"known_findings":   known,
-		"checker_cmd":      "bin/osmcheck -prop " + prop.ID + " -tier " + tier,
-		"trusted_base":     prop.Assumptions,
-		"exhaustive":       false,
-		"all_obligations":  all,
+		"samples":         samples,
+		"obligations":     len(all),
+		"discharged":      discharged,
+		"distinct":        distinct,
+		"rules":           ruleDocs,
+		"analysed":        stats,
+		"build_configs":   configs,
+		"known_findings":  known,
+		"checker_cmd":     "bin/osmcheck -prop " + prop.ID + " -tier " + tier,
+		"trusted_base":    prop.Assumptions,
+		"exhaustive":      prop.Exhaustive,
+		"all_obligations": all,
 	}
 	if mres != nil {
 		det, tried := 0, 0
